@@ -175,6 +175,7 @@ fn engine_conc(args: &Args) -> i32 {
                 _ => conc::clonedrop(cseed, &conc::make_w2_fat, nthreads, len, st),
             },
             "plaindrop" => conc::plaindrop(cseed, k as usize, nthreads, len, st),
+            "uninitpoll" => conc::uninitpoll(cseed, k as usize, 1 + ((k / 2) % 2) as usize, st),
             "uniqpoll" => conc::uniqpoll(cseed, if scen == "all" { (k / 4) as usize } else { k as usize }, 1 + ((k / 32) % 2) as usize, st),
             "cow" => conc::cow(cseed, if scen == "all" { (k / 4) as usize } else { k as usize }, 1 + ((k / 12) % 2) as usize, st),
             _ => conc::unwraprace(cseed, 2 + ((k / 4) % 2) as usize, st),
@@ -185,6 +186,7 @@ fn engine_conc(args: &Args) -> i32 {
                 Viol {
                     props: match which.as_str() {
                         "clonedrop" | "plaindrop" => "C02",
+                        "uninitpoll" => "C15,C03",
                         "uniqpoll" => "C03",
                         "cow" => "C08",
                         _ => "C09",
